@@ -1,12 +1,1672 @@
-//! C16 — not built yet (stub; see DESIGN.md §5).
-use crate::ctx::Tier;
-use serde_json::Value;
+//! C16 — off-reader handlers are capped, never block the reader or kill the
+//! connection.
+//!
+//! A real `SharedWebSocketServer` (built with `with_offreader_limit(cap)`) serves
+//! one fresh in-memory connection per scenario; the harness is the raw WebSocket
+//! peer. Every handler of the four `*_blocking` routes parks on its own
+//! `wsh::Gate` (selected by the request body), so the harness decides exactly
+//! which handlers are running and in which order they finish. A scenario is an
+//! event sequence (send off-reader request that returns / errors / panics, send
+//! off-reader notify, send inline request, release parked handler *j*, bursts);
+//! all sequences up to a depth bound are generated from the reference model
+//! (a counter automaton: the list of running request ids, size <= cap) and each
+//! one is executed on the real server. After EVERY event an inline "fence"
+//! request is sent and everything that arrived before its reply is compared
+//! with the model's prediction, so both "this frame must arrive" and "nothing
+//! else may arrive" are decided by positive events (FIFO reader + FIFO outbound
+//! channel), never by waiting for silence.
+//!
+//! Synchronisation (no sleeps as synchronisation): a handler is known to be
+//! parked through `Gate::await_waiting`, to have left through the strong count
+//! of the route's `Arc<dyn HandlerErased>` (`Router::get` hands out the very Arc
+//! the reader clones into the blocking task; the task drops it *after* the
+//! permit), and frames are awaited under a real-time watchdog. The runtime is a
+//! current-thread runtime with a real clock: a paused clock cannot expire while
+//! a blocking task is parked, so the watchdog must be real time.
 
-pub fn run(_tier: Tier) -> ! {
-    eprintln!("MACHINERY-ERROR property=C16 check not built yet");
-    std::process::exit(2)
+use crate::ctx::{Ctx, Tier};
+use crate::frames::Frame;
+use crate::par;
+use crate::wsh::{self, Gate, Got, Serve, WsConn};
+use repe::{CallContext, ConnectionError, ErrorCode, Message, Next, Router, WebSocketServer};
+use serde::Deserialize;
+use serde_json::{Value, json};
+use std::collections::{BTreeMap, BTreeSet};
+use std::sync::atomic::{AtomicBool, AtomicU64, AtomicUsize, Ordering::SeqCst};
+use std::sync::{Arc, Mutex};
+use std::time::{Duration, Instant};
+
+const ROUTES: [&str; 4] = ["/blk/json", "/blk/json_ctx", "/blk/typed", "/blk/typed_ctx"];
+const EC_RESOURCE_EXHAUSTED: u32 = 8;
+const EC_INTERNAL: u32 = 9;
+const EC_APP: u32 = 4096;
+const FENCE_BASE: u64 = 1 << 40;
+const WATCHDOG: Duration = Duration::from_secs(10);
+/// how long a below-cap rejection after a release is retried before it counts as a leaked slot
+const RETRY_BUDGET: Duration = Duration::from_millis(250);
+const PANIC_MARK: &str = "c16-handler-panic";
+
+// ------------------------------------------------------------------ alphabet
+
+#[derive(Clone, Copy, Debug, PartialEq, Eq, Hash, PartialOrd, Ord)]
+enum Kind {
+    Ret,
+    Err,
+    Panic,
 }
 
-pub fn replay(_case: &Value) -> Result<(), String> {
-    Err("no replay for C16 yet".into())
+impl Kind {
+    const ALL: [Kind; 3] = [Kind::Ret, Kind::Err, Kind::Panic];
+    fn name(self) -> &'static str {
+        match self {
+            Kind::Ret => "ret",
+            Kind::Err => "err",
+            Kind::Panic => "panic",
+        }
+    }
+    fn parse(s: &str) -> Option<Kind> {
+        Kind::ALL.into_iter().find(|k| k.name() == s)
+    }
+}
+
+#[derive(Clone, Copy, Debug, PartialEq, Eq, Hash)]
+enum Ev {
+    /// off-reader request whose handler returns / errors / panics once released
+    Req(Kind),
+    /// off-reader notify (handler parks like a request's; no response exists)
+    Notify(Kind),
+    /// request to the inline route
+    Inline,
+    /// release the j-th oldest currently parked handler
+    Release(u8),
+    /// n off-reader messages sent back to back before anything is read
+    /// (kinds rotate ret/err/panic, every 5th is a notify)
+    Burst(u16),
+    /// open the gates of all parked handlers at once
+    ReleaseAll,
+}
+
+impl Ev {
+    fn name(&self) -> String {
+        match self {
+            Ev::Req(k) => format!("req:{}", k.name()),
+            Ev::Notify(k) => format!("notify:{}", k.name()),
+            Ev::Inline => "inline".into(),
+            Ev::Release(j) => format!("release:{j}"),
+            Ev::Burst(n) => format!("burst:{n}"),
+            Ev::ReleaseAll => "release-all".into(),
+        }
+    }
+    fn parse(s: &str) -> Option<Ev> {
+        let (a, b) = s.split_once(':').unwrap_or((s, ""));
+        Some(match a {
+            "req" => Ev::Req(Kind::parse(b)?),
+            "notify" => Ev::Notify(Kind::parse(b)?),
+            "inline" => Ev::Inline,
+            "release" => Ev::Release(b.parse().ok()?),
+            "burst" => Ev::Burst(b.parse().ok()?),
+            "release-all" => Ev::ReleaseAll,
+            _ => return None,
+        })
+    }
+}
+
+/// cap 0 = unlimited (`with_offreader_limit(0)`)
+#[derive(Clone, Copy, Debug, PartialEq, Eq)]
+struct Cfg {
+    cap: usize,
+    /// a pass-through middleware wraps every route (registered before the
+    /// routes when `rot` is even, after them when odd: both wrap sites)
+    mw: bool,
+    /// the k-th off-reader message of a scenario goes to ROUTES[(k + rot) % 4]
+    rot: u8,
+}
+
+impl Cfg {
+    fn limit(&self) -> Option<usize> {
+        (self.cap > 0).then_some(self.cap)
+    }
+    fn json(&self) -> Value {
+        json!({"cap": self.cap, "mw": self.mw, "rot": self.rot})
+    }
+}
+
+// ------------------------------------------------------------ shared handler state
+
+struct Shared {
+    harness: std::thread::ThreadId,
+    gates: Mutex<BTreeMap<u64, Gate>>,
+    abort: AtomicBool,
+    gauge: AtomicUsize,
+    max_gauge: AtomicUsize,
+    started: Mutex<Vec<u64>>,
+    on_reader: AtomicUsize,
+    gate_timeouts: AtomicUsize,
+    mw_calls: AtomicUsize,
+    route_hits: [AtomicUsize; 4],
+    /// (0 = saturation, 1 = handler panic, 2 = other, method / text)
+    hook: Mutex<Vec<(u8, String)>>,
+}
+
+impl Shared {
+    fn new() -> Arc<Shared> {
+        Arc::new(Shared {
+            harness: std::thread::current().id(),
+            gates: Mutex::new(BTreeMap::new()),
+            abort: AtomicBool::new(false),
+            gauge: AtomicUsize::new(0),
+            max_gauge: AtomicUsize::new(0),
+            started: Mutex::new(Vec::new()),
+            on_reader: AtomicUsize::new(0),
+            gate_timeouts: AtomicUsize::new(0),
+            mw_calls: AtomicUsize::new(0),
+            route_hits: [AtomicUsize::new(0), AtomicUsize::new(0), AtomicUsize::new(0), AtomicUsize::new(0)],
+            hook: Mutex::new(Vec::new()),
+        })
+    }
+    fn gate(&self, g: u64) -> Gate {
+        let mut m = self.gates.lock().unwrap();
+        let aborted = self.abort.load(SeqCst);
+        let gate = m.entry(g).or_default().clone();
+        if aborted {
+            gate.open();
+        }
+        gate
+    }
+    /// End of scenario: nothing may stay parked, whatever went wrong.
+    fn open_everything(&self) {
+        self.abort.store(true, SeqCst);
+        let m = self.gates.lock().unwrap();
+        for g in m.values() {
+            g.open();
+        }
+    }
+}
+
+/// Body of every blocking-route handler: gauge up, park on the request's own
+/// gate, gauge down, then return / fail / panic as the request asks.
+fn work(sh: &Shared, route: usize, g: u64, k: &str) -> Result<Value, (ErrorCode, String)> {
+    sh.route_hits[route].fetch_add(1, SeqCst);
+    sh.started.lock().unwrap().push(g);
+    if std::thread::current().id() == sh.harness {
+        // Running on the connection's reader task (the runtime's only thread):
+        // parking here would freeze reader and harness alike; record it instead.
+        sh.on_reader.fetch_add(1, SeqCst);
+    } else {
+        let n = sh.gauge.fetch_add(1, SeqCst) + 1;
+        sh.max_gauge.fetch_max(n, SeqCst);
+        let gate = sh.gate(g);
+        let ok = gate.wait();
+        sh.gauge.fetch_sub(1, SeqCst);
+        if !ok {
+            sh.gate_timeouts.fetch_add(1, SeqCst);
+        }
+    }
+    match k {
+        "ret" => Ok(json!({"done": g})),
+        "err" => Err((ErrorCode::ApplicationErrorBase, format!("boom {g}"))),
+        _ => panic!("{PANIC_MARK} {g}"),
+    }
+}
+
+fn work_value(sh: &Shared, route: usize, v: Value) -> Result<Value, (ErrorCode, String)> {
+    let g = v.get("g").and_then(|x| x.as_u64()).unwrap_or(u64::MAX);
+    let k = v.get("k").and_then(|x| x.as_str()).unwrap_or("ret").to_string();
+    work(sh, route, g, &k)
+}
+
+#[derive(Deserialize)]
+struct In {
+    g: u64,
+    k: String,
+}
+
+fn build_router(cfg: &Cfg, sh: &Arc<Shared>) -> Router {
+    let mut r = Router::new();
+    let add_mw = |r: Router| {
+        let s = sh.clone();
+        r.with_middleware(move |req: &Message, next: Next<'_>| {
+            s.mw_calls.fetch_add(1, SeqCst);
+            next.run(req)
+        })
+    };
+    if cfg.mw && cfg.rot % 2 == 0 {
+        r = add_mw(r);
+    }
+    let (s0, s1, s2, s3) = (sh.clone(), sh.clone(), sh.clone(), sh.clone());
+    r = r
+        .with_json("/echo", |v: Value| Ok(json!({"got": v})))
+        .with_json_blocking(ROUTES[0], move |v: Value| work_value(&s0, 0, v))
+        .with_json_ctx_blocking(ROUTES[1], move |_c: &CallContext, v: Value| work_value(&s1, 1, v))
+        .with_typed_blocking::<In, Value, _>(ROUTES[2], move |i: In| work(&s2, 2, i.g, &i.k))
+        .with_typed_ctx_blocking::<In, Value, _>(ROUTES[3], move |_c: &CallContext, i: In| work(&s3, 3, i.g, &i.k));
+    if cfg.mw && cfg.rot % 2 == 1 {
+        r = add_mw(r);
+    }
+    r
+}
+
+// ------------------------------------------------------------------ model + oracle
+
+/// What the oracle compares of a frame: id, error code, and for a success the
+/// decoded body (error texts are not part of the property).
+#[derive(Clone, Debug, PartialEq, Eq, PartialOrd, Ord)]
+struct Fr {
+    id: u64,
+    ec: u32,
+    body: String,
+}
+
+impl Fr {
+    fn of(f: &Frame) -> Fr {
+        let body = if f.h.ec != 0 {
+            String::new()
+        } else {
+            let v: Option<Value> = match f.h.body_format {
+                1 => beve::from_slice(&f.body).ok(),
+                _ => serde_json::from_slice(&f.body).ok(),
+            };
+            v.map(|v| v.to_string()).unwrap_or_else(|| format!("<undecodable {} bytes>", f.body.len()))
+        };
+        Fr { id: f.h.id, ec: f.h.ec, body }
+    }
+    fn show(&self) -> String {
+        if self.ec == 0 { format!("(id {} ok {})", self.id, self.body) } else { format!("(id {} ec {})", self.id, self.ec) }
+    }
+}
+
+fn show(v: &[Fr]) -> String {
+    format!("[{}]", v.iter().map(|f| f.show()).collect::<Vec<_>>().join(", "))
+}
+
+#[derive(Clone, Debug)]
+struct Running {
+    id: u64,
+    kind: Kind,
+    notify: bool,
+    /// ordinal among the handlers started in this scenario
+    ord: usize,
+}
+
+impl Running {
+    fn result(&self) -> Option<Fr> {
+        if self.notify {
+            return None;
+        }
+        Some(match self.kind {
+            Kind::Ret => Fr { id: self.id, ec: 0, body: json!({"done": self.id}).to_string() },
+            Kind::Err => Fr { id: self.id, ec: EC_APP, body: String::new() },
+            Kind::Panic => Fr { id: self.id, ec: EC_INTERNAL, body: String::new() },
+        })
+    }
+}
+
+#[derive(Clone, Debug)]
+struct Bad {
+    key: String,
+    what: String,
+    step: usize,
+    /// decided by a watchdog expiry (10 s each: exploration stops after two)
+    hang: bool,
+    /// decided after the retry budget (exploration stops after 24)
+    slow: bool,
+}
+
+#[derive(Default, Clone, Debug)]
+struct ScenStats {
+    transitions: u64,
+    frames: u64,
+    sat_requests: u64,
+    sat_notifies: u64,
+    panics: u64,
+    notify_panics: u64,
+    errors: u64,
+    returns: u64,
+    inline_while_parked: u64,
+    inline_at_cap: u64,
+    accepted_after_release: u64,
+    non_fifo_release: u64,
+    release_order: Vec<usize>,
+    max_gauge: usize,
+    refill_started: u64,
+    mw_calls: u64,
+    route_hits: [u64; 4],
+    hook_saturation: u64,
+    hook_panic: u64,
+    hook_mismatch: Option<String>,
+    quiesce_timeouts: u64,
+    gate_timeouts: u64,
+    late_slot_release: u64,
+    states: Vec<String>,
+    serve_result_note: Option<String>,
+    predicted: Vec<Fr>,
+}
+
+struct Outcome {
+    bad: Option<Bad>,
+    st: ScenStats,
+}
+
+struct Runner {
+    cfg: Cfg,
+    sh: Arc<Shared>,
+    conn: WsConn,
+    handlers: Vec<(Arc<dyn repe::server::HandlerErased>, usize)>,
+    running: Vec<Running>,
+    started_ids: Vec<u64>,
+    notify_ids: BTreeSet<u64>,
+    next_id: u64,
+    sent_off: usize,
+    fence_n: u64,
+    step: usize,
+    in_events: bool,
+    released_any: bool,
+    panics_released: u64,
+    errors_released: u64,
+    returns_released: u64,
+    exp_saturation: u64,
+    exp_panic_events: u64,
+    all_exp: Vec<Fr>,
+    all_got: Vec<Fr>,
+    st: ScenStats,
+}
+
+#[derive(Clone, Copy, PartialEq)]
+enum Ctxt {
+    AtCapRequest,
+    AtCapNotify,
+    BelowCap,
+    Release,
+    Inline,
+    Quiet,
+    Burst,
+}
+
+type R = Result<(), Bad>;
+
+impl Runner {
+    fn bad(&self, key: &str, what: String) -> Bad {
+        Bad { key: key.into(), what, step: self.step, hang: false, slow: false }
+    }
+    fn hang(&self, key: &str, what: String) -> Bad {
+        Bad { key: key.into(), what, step: self.step, hang: true, slow: false }
+    }
+    fn at_cap(&self) -> bool {
+        self.cfg.limit().is_some_and(|c| self.running.len() >= c)
+    }
+    fn canon(&self) -> String {
+        let mut s = format!("cap{}:", self.cfg.cap);
+        for r in &self.running {
+            s.push(if r.notify { 'n' } else { 'r' });
+            s.push(match r.kind {
+                Kind::Ret => 'R',
+                Kind::Err => 'E',
+                Kind::Panic => 'P',
+            });
+        }
+        s
+    }
+    fn history_tag(&self) -> &'static str {
+        if self.panics_released > 0 {
+            "after-panic"
+        } else if self.errors_released > 0 {
+            "after-error"
+        } else if self.returns_released > 0 {
+            "after-return"
+        } else {
+            "fresh"
+        }
+    }
+    /// handler Arcs currently held by dispatches (spawned, queued or running)
+    fn inflight(&self) -> usize {
+        self.handlers.iter().map(|(h, base)| Arc::strong_count(h).saturating_sub(*base)).sum()
+    }
+
+    /// Decide a multiset difference. `exp`/`got` need not be sorted.
+    fn compare(&self, cx: Ctxt, exp: &[Fr], got: &[Fr], what_ev: &str) -> R {
+        let mut e = exp.to_vec();
+        let mut g = got.to_vec();
+        e.sort();
+        g.sort();
+        if e == g {
+            return Ok(());
+        }
+        let mut missing = Vec::new();
+        let mut extra = g.clone();
+        for x in &e {
+            if let Some(p) = extra.iter().position(|y| y == x) {
+                extra.remove(p);
+            } else {
+                missing.push(x.clone());
+            }
+        }
+        let tail = format!(
+            "{what_ev} with {} handler(s) parked (cap {}): predicted {}, received {}",
+            self.running.len(),
+            if self.cfg.cap == 0 { "unlimited".to_string() } else { self.cfg.cap.to_string() },
+            show(&e),
+            show(&g)
+        );
+        if let Some(m) = missing.first() {
+            let same_id = extra.iter().any(|x| x.id == m.id);
+            let same_ec = extra.iter().any(|x| x.ec == m.ec);
+            let key = match m.ec {
+                EC_RESOURCE_EXHAUSTED => {
+                    if same_id {
+                        "C16:saturation-reply:wrong-code"
+                    } else if same_ec {
+                        "C16:saturation-reply:wrong-id"
+                    } else {
+                        "C16:saturation-reply:missing"
+                    }
+                }
+                EC_INTERNAL => {
+                    if same_id {
+                        "C16:panic-reply:wrong-code"
+                    } else if same_ec {
+                        "C16:panic-reply:wrong-id"
+                    } else {
+                        "C16:panic-reply:missing"
+                    }
+                }
+                _ if cx == Ctxt::Inline => "C16:inline-reply:wrong-or-missing",
+                _ => {
+                    if same_id {
+                        "C16:handler-result:wrong"
+                    } else {
+                        "C16:handler-result:missing"
+                    }
+                }
+            };
+            return Err(self.bad(key, tail));
+        }
+        let x = extra.iter().find(|x| self.notify_ids.contains(&x.id)).unwrap_or(&extra[0]);
+        if cx == Ctxt::AtCapNotify || self.notify_ids.contains(&x.id) {
+            return Err(self.bad(if x.ec == EC_RESOURCE_EXHAUSTED { "C16:notify-at-cap-answered" } else { "C16:notify-answered" }, tail));
+        }
+        if x.ec == EC_RESOURCE_EXHAUSTED && matches!(cx, Ctxt::BelowCap | Ctxt::Burst) {
+            return Err(self.bad(&format!("C16:rejected-below-cap:{}", self.history_tag()), tail));
+        }
+        Err(self.bad("C16:unexpected-frame", tail))
+    }
+
+    async fn send(&mut self, f: &Frame) -> R {
+        self.conn.send_frame(f).await.map_err(|e| self.bad("C16:connection-died", format!("send failed: {e}")))
+    }
+
+    /// One frame under the watchdog.
+    async fn recv(&mut self, waiting_for: &str) -> Result<Frame, Bad> {
+        match self.conn.next(WATCHDOG).await {
+            Got::Frame(f) => {
+                self.st.frames += 1;
+                Ok(f)
+            }
+            Got::Nothing => {
+                let where_ = if self.at_cap() {
+                    "at-cap"
+                } else if !self.running.is_empty() {
+                    "handlers-parked"
+                } else {
+                    "idle"
+                };
+                Err(self.hang(
+                    &format!("C16:no-answer:{waiting_for}:{where_}"),
+                    format!(
+                        "{waiting_for} did not arrive within {WATCHDOG:?} with {} handler(s) parked (cap {})",
+                        self.running.len(),
+                        self.cfg.cap
+                    ),
+                ))
+            }
+            other => Err(self.bad(
+                "C16:connection-died",
+                format!("while waiting for {waiting_for} the connection delivered {other:?} ({} handlers parked)", self.running.len()),
+            )),
+        }
+    }
+
+    /// Inline fence: everything the server sent before the fence's reply.
+    async fn fence(&mut self) -> Result<Vec<Fr>, Bad> {
+        self.fence_n += 1;
+        let fid = FENCE_BASE + self.fence_n;
+        let body = format!("{{\"f\":{}}}", self.fence_n);
+        self.send(&Frame::request(fid, "/echo", body.as_bytes(), 2, false)).await?;
+        let mut out = Vec::new();
+        loop {
+            let f = self.recv("inline-reply").await?;
+            if f.h.id == fid {
+                let fr = Fr::of(&f);
+                let want = json!({"got": {"f": self.fence_n}}).to_string();
+                if fr.ec != 0 || fr.body != want {
+                    return Err(self.bad(
+                        "C16:inline-reply:wrong-or-missing",
+                        format!("inline request {fid} answered with {} instead of {want}", fr.show()),
+                    ));
+                }
+                if !self.running.is_empty() {
+                    self.st.inline_while_parked += 1;
+                }
+                if self.at_cap() {
+                    self.st.inline_at_cap += 1;
+                }
+                return Ok(out);
+            }
+            let fr = Fr::of(&f);
+            self.all_got.push(fr.clone());
+            out.push(fr);
+        }
+    }
+
+    fn expect(&mut self, exp: &[Fr]) {
+        self.all_exp.extend_from_slice(exp);
+        self.st.predicted.extend_from_slice(exp);
+    }
+
+    /// Gauge / thread / start-set clauses at a synchronised point.
+    fn check_gauge(&mut self, what_ev: &str) -> R {
+        if self.sh.on_reader.load(SeqCst) > 0 {
+            return Err(self.bad(
+                "C16:handler-on-reader-thread",
+                format!(
+                    "{what_ev}: the handler of a *_blocking route (middleware: {}) ran on the connection's reader task instead of a blocking thread, so the reader cannot read while it runs",
+                    self.cfg.mw
+                ),
+            ));
+        }
+        // A dispatch the model does not know about (e.g. a notify that should
+        // have been dropped): wait for the positive event, its handler running,
+        // before looking at the gauge (so the verdict does not depend on how far
+        // that thread has got).
+        let mut unpredicted = false;
+        let mut seen = 0usize;
+        if self.inflight() > self.running.len() {
+            let deadline = Instant::now() + WATCHDOG;
+            loop {
+                seen = self.sh.gauge.load(SeqCst);
+                if seen > self.running.len() {
+                    unpredicted = true;
+                    break;
+                }
+                if Instant::now() >= deadline {
+                    self.st.quiesce_timeouts += 1;
+                    break;
+                }
+                std::thread::sleep(Duration::from_micros(50));
+            }
+        }
+        // (the handler bumps the gauge before it publishes the maximum)
+        let max = self.sh.max_gauge.load(SeqCst).max(seen);
+        self.st.max_gauge = self.st.max_gauge.max(max);
+        if let Some(c) = self.cfg.limit() {
+            if max > c {
+                return Err(self.bad("C16:gauge-exceeds-cap", format!("{what_ev}: {max} handlers were running simultaneously, cap is {c}")));
+            }
+        }
+        if unpredicted {
+            return Err(self.bad(
+                "C16:handler-started-unpredicted",
+                format!(
+                    "{what_ev}: {} handlers running, the model has {} (cap {}); started gates {:?}, model {:?}",
+                    self.sh.gauge.load(SeqCst),
+                    self.running.len(),
+                    self.cfg.cap,
+                    self.sh.started.lock().unwrap(),
+                    self.started_ids
+                ),
+            ));
+        }
+        let g = self.sh.gauge.load(SeqCst);
+        if g != self.running.len() {
+            return Err(self.bad(
+                "C16:gauge-differs-from-model",
+                format!("{what_ev}: {g} handlers running, the model has {} (cap {})", self.running.len(), self.cfg.cap),
+            ));
+        }
+        Ok(())
+    }
+
+    /// Wait until the blocking tasks of released handlers are gone (their
+    /// permit is dropped before the handler Arc).
+    fn quiesce(&mut self) {
+        let deadline = Instant::now() + WATCHDOG;
+        let mut spins = 0u32;
+        while self.inflight() > self.running.len() {
+            if Instant::now() >= deadline {
+                self.st.quiesce_timeouts += 1;
+                return;
+            }
+            spins += 1;
+            if spins < 2000 {
+                std::thread::yield_now();
+            } else {
+                std::thread::sleep(Duration::from_micros(50));
+            }
+        }
+    }
+
+    fn offreader_frame(&mut self, kind: Kind, notify: bool) -> (u64, Frame) {
+        self.next_id += 1;
+        let id = self.next_id;
+        let path = ROUTES[(self.sent_off + self.cfg.rot as usize) % 4];
+        self.sent_off += 1;
+        let _ = self.sh.gate(id);
+        if notify {
+            self.notify_ids.insert(id);
+        }
+        let body = format!("{{\"g\":{id},\"k\":\"{}\"}}", kind.name());
+        (id, Frame::request(id, path, body.as_bytes(), 2, notify))
+    }
+
+    /// Model transition for one off-reader message; returns the predicted frames.
+    fn model_offreader(&mut self, id: u64, kind: Kind, notify: bool) -> (bool, Vec<Fr>) {
+        if self.at_cap() {
+            self.exp_saturation += 1;
+            if self.in_events {
+                if notify {
+                    self.st.sat_notifies += 1;
+                } else {
+                    self.st.sat_requests += 1;
+                }
+            }
+            let exp = if notify { vec![] } else { vec![Fr { id, ec: EC_RESOURCE_EXHAUSTED, body: String::new() }] };
+            (false, exp)
+        } else {
+            let ord = self.started_ids.len();
+            self.started_ids.push(id);
+            self.running.push(Running { id, kind, notify, ord });
+            if self.released_any && self.in_events {
+                self.st.accepted_after_release += 1;
+            }
+            (true, vec![])
+        }
+    }
+
+    fn await_parked(&mut self, id: u64, what_ev: &str) -> R {
+        if self.sh.on_reader.load(SeqCst) > 0 {
+            return Ok(()); // reported by check_gauge with its own key
+        }
+        if self.inflight() < self.running.len() {
+            let sat = self.sh.hook.lock().unwrap().iter().filter(|h| h.0 == 0).count() as u64;
+            if sat > self.exp_saturation {
+                return Err(self.bad(
+                    &format!("C16:dropped-below-cap:{}", self.history_tag()),
+                    format!(
+                        "{what_ev}: message {id} was not dispatched and the server reported Saturation although only {} of {} slots were taken",
+                        self.running.len() - 1,
+                        self.cfg.cap
+                    ),
+                ));
+            }
+        }
+        if !self.sh.gate(id).await_waiting(1) {
+            return Err(self.hang(
+                "C16:accepted-handler-never-started",
+                format!("{what_ev}: the handler of request {id} did not start although {} of {} slots were free", self.running.len() - 1, self.cfg.cap),
+            ));
+        }
+        Ok(())
+    }
+
+    fn saturation_events(&self) -> u64 {
+        self.sh.hook.lock().unwrap().iter().filter(|h| h.0 == 0).count() as u64
+    }
+
+    async fn ev_offreader(&mut self, kind: Kind, notify: bool) -> R {
+        let what_ev = format!("off-reader {} ({})", if notify { "notify" } else { "request" }, kind.name());
+        let t0 = Instant::now();
+        let mut tries = 0u32;
+        loop {
+            let (id, frame) = self.offreader_frame(kind, notify);
+            let was_at_cap = self.at_cap();
+            let (accepted, exp) = self.model_offreader(id, kind, notify);
+            self.expect(&exp);
+            self.send(&frame).await?;
+            let got = self.fence().await?;
+            if self.sh.on_reader.load(SeqCst) > 0 {
+                self.check_gauge(&what_ev)?;
+            }
+            // The property makes a rejection retryable and does not say that the slot
+            // of a finished handler is free at the very instant its response is
+            // visible. A rejection below the cap after a release is therefore only a
+            // leak if it persists: follow the server's answer in the model and retry
+            // (bounded). On the unchanged tree this never triggers (measured).
+            let mut persisted = false;
+            if accepted && self.released_any {
+                let re = Fr { id, ec: EC_RESOURCE_EXHAUSTED, body: String::new() };
+                let rejected = if notify {
+                    got.is_empty() && self.inflight() < self.running.len() && self.saturation_events() > self.exp_saturation
+                } else {
+                    got.len() == 1 && got[0] == re
+                };
+                if rejected && t0.elapsed() < RETRY_BUDGET {
+                    self.running.pop();
+                    self.started_ids.pop();
+                    if self.in_events {
+                        self.st.accepted_after_release -= 1;
+                    }
+                    self.exp_saturation += 1;
+                    if !notify {
+                        self.expect(&[re]);
+                    }
+                    tries += 1;
+                    std::thread::sleep(Duration::from_micros(200));
+                    continue;
+                }
+                persisted = rejected;
+            }
+            if tries > 0 && !persisted {
+                self.st.late_slot_release += 1;
+            }
+            let cx = match (was_at_cap, notify) {
+                (true, false) => Ctxt::AtCapRequest,
+                (true, true) => Ctxt::AtCapNotify,
+                _ => Ctxt::BelowCap,
+            };
+            let slow = |mut b: Bad| {
+                b.slow = persisted;
+                if persisted {
+                    b.what = format!("{} (persisted over {tries} retries in {:?})", b.what, t0.elapsed());
+                }
+                b
+            };
+            self.compare(cx, &exp, &got, &format!("{what_ev} id {id}")).map_err(slow)?;
+            if accepted {
+                self.await_parked(id, &what_ev).map_err(slow)?;
+            }
+            return self.check_gauge(&what_ev);
+        }
+    }
+
+    async fn ev_inline(&mut self) -> R {
+        self.next_id += 1;
+        let id = self.next_id;
+        let body = format!("{{\"i\":{id}}}");
+        let exp = vec![Fr { id, ec: 0, body: json!({"got": {"i": id}}).to_string() }];
+        self.expect(&exp);
+        self.send(&Frame::request(id, "/echo", body.as_bytes(), 2, false)).await?;
+        let got = self.fence().await?;
+        self.compare(Ctxt::Inline, &exp, &got, &format!("inline request id {id}"))?;
+        self.check_gauge("inline request")
+    }
+
+    fn note_release(&mut self, r: &Running) {
+        self.released_any = true;
+        if self.running.iter().any(|o| o.ord < r.ord) && self.in_events {
+            self.st.non_fifo_release += 1;
+        }
+        if self.in_events {
+            self.st.release_order.push(r.ord);
+        }
+        match (r.kind, r.notify) {
+            (Kind::Panic, n) => {
+                self.exp_panic_events += 1;
+                self.panics_released += 1;
+                if self.in_events {
+                    if n {
+                        self.st.notify_panics += 1;
+                    } else {
+                        self.st.panics += 1;
+                    }
+                }
+            }
+            (Kind::Err, _) => {
+                self.errors_released += 1;
+                if self.in_events {
+                    self.st.errors += 1;
+                }
+            }
+            (Kind::Ret, _) => {
+                self.returns_released += 1;
+                if self.in_events {
+                    self.st.returns += 1;
+                }
+            }
+        }
+    }
+
+    async fn ev_release(&mut self, j: usize) -> R {
+        let r = self.running.remove(j);
+        let what_ev = format!("release of handler {} ({}{})", r.id, r.kind.name(), if r.notify { ", notify" } else { "" });
+        self.note_release(&r);
+        let exp: Vec<Fr> = r.result().into_iter().collect();
+        self.expect(&exp);
+        self.sh.gate(r.id).open();
+        if !exp.is_empty() {
+            let f = self.recv(if r.kind == Kind::Panic { "panic-reply" } else { "handler-result" }).await?;
+            let fr = Fr::of(&f);
+            self.all_got.push(fr.clone());
+            self.compare(Ctxt::Release, &exp, &[fr], &what_ev)?;
+        }
+        self.quiesce();
+        let got = self.fence().await?;
+        self.compare(Ctxt::Quiet, &[], &got, &format!("after {what_ev}"))?;
+        self.check_gauge(&what_ev)
+    }
+
+    async fn ev_release_all(&mut self) -> R {
+        let rs: Vec<Running> = std::mem::take(&mut self.running);
+        let mut exp = Vec::new();
+        for r in &rs {
+            self.note_release(r);
+            exp.extend(r.result());
+        }
+        self.expect(&exp);
+        for r in &rs {
+            self.sh.gate(r.id).open();
+        }
+        let mut got = Vec::new();
+        for _ in 0..exp.len() {
+            let f = self.recv("handler-result").await?;
+            let fr = Fr::of(&f);
+            self.all_got.push(fr.clone());
+            got.push(fr);
+        }
+        let what_ev = format!("release of all {} parked handlers at once", rs.len());
+        self.compare(Ctxt::Release, &exp, &got, &what_ev)?;
+        self.quiesce();
+        let got = self.fence().await?;
+        self.compare(Ctxt::Quiet, &[], &got, &format!("after {what_ev}"))?;
+        self.check_gauge(&what_ev)
+    }
+
+    async fn ev_burst(&mut self, n: usize) -> R {
+        let what_ev = format!("burst of {n} off-reader messages");
+        let mut exp = Vec::new();
+        let mut accepted = Vec::new();
+        let mut frames = Vec::new();
+        for i in 0..n {
+            let kind = Kind::ALL[i % 3];
+            let notify = i % 5 == 4;
+            let (id, frame) = self.offreader_frame(kind, notify);
+            let (ok, e) = self.model_offreader(id, kind, notify);
+            if ok {
+                accepted.push(id);
+            }
+            exp.extend(e);
+            frames.push(frame);
+        }
+        self.expect(&exp);
+        for f in &frames {
+            self.send(f).await?;
+        }
+        let got = self.fence().await?;
+        if self.sh.on_reader.load(SeqCst) > 0 {
+            self.check_gauge(&what_ev)?;
+        }
+        self.compare(Ctxt::Burst, &exp, &got, &what_ev)?;
+        for id in accepted {
+            self.await_parked(id, &what_ev)?;
+        }
+        self.check_gauge(&what_ev)
+    }
+
+    async fn apply(&mut self, ev: Ev) -> R {
+        self.st.transitions += 1;
+        let r = match ev {
+            Ev::Req(k) => self.ev_offreader(k, false).await,
+            Ev::Notify(k) => self.ev_offreader(k, true).await,
+            Ev::Inline => self.ev_inline().await,
+            Ev::Release(j) => {
+                if (j as usize) >= self.running.len() {
+                    return Err(self.bad("C16:harness:bad-script", format!("release:{j} with {} parked", self.running.len())));
+                }
+                self.ev_release(j as usize).await
+            }
+            Ev::Burst(n) => self.ev_burst(n as usize).await,
+            Ev::ReleaseAll => self.ev_release_all().await,
+        };
+        self.st.states.push(self.canon());
+        r
+    }
+
+    /// After the enumerated events: drain, prove that every slot is free again,
+    /// prove the connection is still usable, close, compare everything.
+    async fn epilogue(&mut self) -> R {
+        self.in_events = false;
+        while !self.running.is_empty() {
+            self.step += 1;
+            self.st.transitions += 1;
+            self.ev_release(0).await?;
+        }
+        // every slot must be available again: the next `cap` requests all start
+        let refill = self.cfg.limit().unwrap_or(4);
+        for i in 0..refill {
+            self.step += 1;
+            self.st.transitions += 1;
+            self.ev_offreader(Kind::ALL[i % 3], false).await?;
+            self.st.refill_started += 1;
+        }
+        if self.cfg.limit().is_some() {
+            // ... and the one after that is rejected, a notify dropped
+            self.step += 1;
+            self.st.transitions += 2;
+            self.ev_offreader(Kind::Ret, false).await?;
+            self.ev_offreader(Kind::Ret, true).await?;
+        }
+        while !self.running.is_empty() {
+            self.step += 1;
+            self.st.transitions += 1;
+            let last = self.running.len() - 1;
+            self.ev_release(last).await?;
+        }
+        self.step += 1;
+        self.st.transitions += 1;
+        self.ev_inline().await?;
+        // handlers that ran == handlers the model started
+        let mut started = self.sh.started.lock().unwrap().clone();
+        started.sort();
+        let mut want = self.started_ids.clone();
+        want.sort();
+        if started != want {
+            return Err(self.bad(
+                "C16:handler-started-unpredicted",
+                format!("handlers ran for request ids {started:?}, the model started {want:?} (cap {})", self.cfg.cap),
+            ));
+        }
+        if self.conn.server.is_finished() {
+            return Err(self.bad("C16:connection-died", "the server's connection task ended before the client closed".into()));
+        }
+        // close from the client side; nothing but the close handshake may follow
+        let _ = self.conn.client.close(None).await;
+        loop {
+            match self.conn.next(WATCHDOG).await {
+                Got::Frame(f) => {
+                    let fr = Fr::of(&f);
+                    self.all_got.push(fr);
+                }
+                Got::Close => continue,
+                Got::Nothing => return Err(self.hang("C16:no-answer:close:idle", "the connection did not close after the client's close".into())),
+                _ => break,
+            }
+        }
+        let mut e = self.all_exp.clone();
+        let mut g = self.all_got.clone();
+        e.sort();
+        g.sort();
+        if e != g {
+            return Err(self.bad(
+                "C16:final-multiset",
+                format!("all frames received over the connection {} differ from the model's {}", show(&g), show(&e)),
+            ));
+        }
+        match tokio::time::timeout(WATCHDOG, &mut self.conn.server).await {
+            Ok(Ok(Ok(()))) => {}
+            Ok(Ok(Err(e))) => self.st.serve_result_note = Some(format!("serve_connection returned Err({e}) after a clean client close")),
+            Ok(Err(e)) => self.st.serve_result_note = Some(format!("connection task failed: {e}")),
+            Err(_) => self.st.serve_result_note = Some("connection task still running 10 s after the close handshake".into()),
+        }
+        // error-hook events: more specific than the property -> informational
+        let hook = self.sh.hook.lock().unwrap().clone();
+        let sat = hook.iter().filter(|h| h.0 == 0).count() as u64;
+        let pan = hook.iter().filter(|h| h.0 == 1).count() as u64;
+        self.st.hook_saturation = sat;
+        self.st.hook_panic = pan;
+        if sat != self.exp_saturation || pan != self.exp_panic_events || hook.iter().any(|h| h.0 == 2) {
+            self.st.hook_mismatch = Some(format!(
+                "on_error saw {sat} Saturation / {pan} HandlerPanic events, model predicts {} / {}; others: {:?}",
+                self.exp_saturation,
+                self.exp_panic_events,
+                hook.iter().filter(|h| h.0 == 2).collect::<Vec<_>>()
+            ));
+        }
+        Ok(())
+    }
+}
+
+async fn exec(cfg: Cfg, events: &[Ev]) -> Outcome {
+    let sh = Shared::new();
+    let router = build_router(&cfg, &sh);
+    let handles: Vec<Arc<dyn repe::server::HandlerErased>> = ROUTES.iter().map(|p| router.get(p).expect("route")).collect();
+    let hook_sh = sh.clone();
+    let server = WebSocketServer::new(router).with_offreader_limit(cfg.cap).on_error(move |e: &ConnectionError| {
+        let rec = match e {
+            ConnectionError::Saturation { method } => (0u8, method.clone()),
+            ConnectionError::HandlerPanic { method } => (1u8, method.clone()),
+            other => (2u8, other.to_string()),
+        };
+        hook_sh.hook.lock().unwrap().push(rec);
+    });
+    let shared_srv = server.into_shared();
+    let handlers = handles.into_iter().map(|h| { let base = Arc::strong_count(&h); (h, base) }).collect();
+    let conn = wsh::connect(&shared_srv, Serve::Plain, None).await;
+    let mut r = Runner {
+        cfg,
+        sh: sh.clone(),
+        conn,
+        handlers,
+        running: Vec::new(),
+        started_ids: Vec::new(),
+        notify_ids: BTreeSet::new(),
+        next_id: 100,
+        sent_off: 0,
+        fence_n: 0,
+        step: 0,
+        in_events: true,
+        released_any: false,
+        panics_released: 0,
+        errors_released: 0,
+        returns_released: 0,
+        exp_saturation: 0,
+        exp_panic_events: 0,
+        all_exp: Vec::new(),
+        all_got: Vec::new(),
+        st: ScenStats::default(),
+    };
+    r.st.states.push(r.canon());
+    let mut bad = None;
+    for (i, ev) in events.iter().enumerate() {
+        r.step = i;
+        if let Err(b) = r.apply(*ev).await {
+            bad = Some(b);
+            break;
+        }
+    }
+    if bad.is_none() {
+        r.step = events.len();
+        if let Err(b) = r.epilogue().await {
+            bad = Some(b);
+        }
+    }
+    if let Some(b) = &mut bad {
+        // a blocking-route handler on the reader task explains whatever symptom
+        // came first (e.g. its panic tearing the connection down)
+        if sh.on_reader.load(SeqCst) > 0 && b.key != "C16:handler-on-reader-thread" {
+            b.what = format!(
+                "the handler of a *_blocking route (middleware: {}) ran on the connection's reader task instead of a blocking thread; first symptom {}: {}",
+                cfg.mw, b.key, b.what
+            );
+            b.key = "C16:handler-on-reader-thread".into();
+            b.hang = false;
+        }
+    }
+    // teardown, whatever happened
+    sh.open_everything();
+    let Runner { conn, mut st, .. } = r;
+    let WsConn { client, server, .. } = conn;
+    drop(client);
+    if !server.is_finished() {
+        let mut server = server;
+        if tokio::time::timeout(WATCHDOG, &mut server).await.is_err() {
+            server.abort();
+        }
+    }
+    st.max_gauge = st.max_gauge.max(sh.max_gauge.load(SeqCst));
+    st.mw_calls = sh.mw_calls.load(SeqCst) as u64;
+    for i in 0..4 {
+        st.route_hits[i] = sh.route_hits[i].load(SeqCst) as u64;
+    }
+    st.gate_timeouts = sh.gate_timeouts.load(SeqCst) as u64;
+    Outcome { bad, st }
+}
+
+// ------------------------------------------------------------------ enumeration
+
+/// Every event sequence of length <= depth that the model allows
+/// (release:j only while more than j handlers are parked).
+fn sequences(cap: Option<usize>, depth: usize, notify_kinds: &[Kind]) -> Vec<Vec<Ev>> {
+    fn go(cap: Option<usize>, depth: usize, nk: &[Kind], parked: usize, cur: &mut Vec<Ev>, out: &mut Vec<Vec<Ev>>) {
+        out.push(cur.clone());
+        if cur.len() == depth {
+            return;
+        }
+        let accept = cap.is_none_or(|c| parked < c);
+        let mut letters: Vec<(Ev, usize)> = Vec::new();
+        for k in Kind::ALL {
+            letters.push((Ev::Req(k), parked + accept as usize));
+        }
+        for k in nk {
+            letters.push((Ev::Notify(*k), parked + accept as usize));
+        }
+        letters.push((Ev::Inline, parked));
+        for j in 0..parked {
+            letters.push((Ev::Release(j as u8), parked - 1));
+        }
+        for (ev, p) in letters {
+            cur.push(ev);
+            go(cap, depth, nk, p, cur, out);
+            cur.pop();
+        }
+    }
+    let mut out = Vec::new();
+    go(cap, depth, notify_kinds, 0, &mut Vec::new(), &mut out);
+    out
+}
+
+/// 4 x cap simultaneous messages, released all at once / one by one.
+fn burst_scenarios(cap: usize) -> Vec<Vec<Ev>> {
+    if cap == 0 {
+        return vec![vec![Ev::Burst(64), Ev::ReleaseAll], vec![Ev::Burst(24), Ev::Release(5), Ev::Release(0), Ev::Inline, Ev::ReleaseAll]];
+    }
+    let n = (4 * cap) as u16;
+    let mut v = Vec::new();
+    v.push(vec![Ev::Burst(n), Ev::ReleaseAll]);
+    v.push(std::iter::once(Ev::Burst(n)).chain((0..cap).map(|_| Ev::Release(0))).collect());
+    v.push(std::iter::once(Ev::Burst(n)).chain((0..cap).rev().map(|j| Ev::Release(j as u8))).collect());
+    // free one slot in the middle, take it again, be rejected again
+    let mut w = vec![Ev::Burst(n)];
+    for i in 0..cap {
+        w.push(Ev::Release(((i * 7 + cap / 2) % cap) as u8));
+        w.push(Ev::Req(Kind::ALL[(i + 2) % 3]));
+        w.push(Ev::Req(Kind::Ret));
+        w.push(Ev::Inline);
+    }
+    v.push(w);
+    v
+}
+
+struct Plan {
+    cfg: Cfg,
+    seqs: Arc<Vec<Vec<Ev>>>,
+    /// every allowed sequence of length <= depth ...
+    depth: usize,
+    /// ... for the two "deep" configurations also those of length <= deep
+    deep: usize,
+    bursts: usize,
+}
+
+fn plans(tier: Tier) -> Vec<Plan> {
+    let mut out = Vec::new();
+    // (cap, depth for all 8 configurations, depth for the 2 deep configurations)
+    let caps: Vec<(usize, usize, usize)> = match tier {
+        Tier::Quick => vec![(1, 5, 6), (2, 5, 6), (3, 5, 6)],
+        Tier::Thorough => vec![(1, 6, 7), (2, 6, 7), (3, 6, 7), (16, 5, 5), (0, 5, 6)],
+    };
+    let nk: Vec<Kind> = tier.pick(vec![Kind::Ret], vec![Kind::Ret, Kind::Panic]);
+    for (cap, depth, deep) in caps {
+        let limit = (cap > 0).then_some(cap);
+        let all = sequences(limit, deep, &nk);
+        let mut shallow: Vec<Vec<Ev>> = all.iter().filter(|s| s.len() <= depth).cloned().collect();
+        let b = burst_scenarios(cap);
+        let bursts = b.len();
+        shallow.extend(b);
+        if matches!(tier, Tier::Thorough) && cap == 16 {
+            // deep sequences from a nearly full connection: 14 parked, then every
+            // sequence of depth 3 (release letters for all parked handlers)
+            for tail in sequences_from(16, 14, 3, &nk) {
+                let mut v = vec![Ev::Burst(14)];
+                v.extend(tail);
+                shallow.push(v);
+            }
+        }
+        let extra: Vec<Vec<Ev>> = all.into_iter().filter(|s| s.len() > depth).collect();
+        let shallow = Arc::new(shallow);
+        let extra = Arc::new(extra);
+        for mw in [false, true] {
+            for rot in 0..4u8 {
+                let cfg = Cfg { cap, mw, rot };
+                out.push(Plan { cfg, seqs: shallow.clone(), depth, deep: depth, bursts });
+                // deep configurations: plain with rotation 0, middleware (registered
+                // after the routes) with rotation 1
+                if deep > depth && ((!mw && rot == 0) || (mw && rot == 1)) {
+                    out.push(Plan { cfg, seqs: extra.clone(), depth, deep, bursts: 0 });
+                }
+            }
+        }
+    }
+    out
+}
+
+/// like `sequences`, starting with `parked` handlers already parked; only the
+/// maximal sequences (length == depth) are returned (prefixes are checked on the way)
+fn sequences_from(cap: usize, parked: usize, depth: usize, nk: &[Kind]) -> Vec<Vec<Ev>> {
+    fn go(cap: usize, depth: usize, nk: &[Kind], parked: usize, cur: &mut Vec<Ev>, out: &mut Vec<Vec<Ev>>) {
+        if cur.len() == depth {
+            out.push(cur.clone());
+            return;
+        }
+        let accept = parked < cap;
+        let mut letters: Vec<(Ev, usize)> = Vec::new();
+        for k in Kind::ALL {
+            letters.push((Ev::Req(k), parked + accept as usize));
+        }
+        for k in nk {
+            letters.push((Ev::Notify(*k), parked + accept as usize));
+        }
+        letters.push((Ev::Inline, parked));
+        for j in 0..parked {
+            letters.push((Ev::Release(j as u8), parked - 1));
+        }
+        for (ev, p) in letters {
+            cur.push(ev);
+            go(cap, depth, nk, p, cur, out);
+            cur.pop();
+        }
+    }
+    let mut out = Vec::new();
+    go(cap, depth, nk, parked, &mut Vec::new(), &mut out);
+    out
+}
+
+// ------------------------------------------------------------------ driver
+
+fn runtime() -> tokio::runtime::Runtime {
+    tokio::runtime::Builder::new_current_thread().enable_time().max_blocking_threads(512).build().expect("runtime")
+}
+
+fn install_panic_hook() {
+    let default = std::panic::take_hook();
+    std::panic::set_hook(Box::new(move |info| {
+        let msg = info
+            .payload()
+            .downcast_ref::<String>()
+            .map(|s| s.as_str())
+            .or_else(|| info.payload().downcast_ref::<&str>().copied())
+            .unwrap_or("");
+        if msg.contains(PANIC_MARK) {
+            return;
+        }
+        default(info)
+    }));
+}
+
+fn case_json(cfg: &Cfg, events: &[Ev]) -> Value {
+    json!({"cfg": cfg.json(), "events": events.iter().map(|e| e.name()).collect::<Vec<_>>()})
+}
+
+#[derive(Default)]
+struct Agg {
+    scenarios: u64,
+    transitions: u64,
+    frames: u64,
+    states: BTreeSet<String>,
+    per_cap: BTreeMap<usize, CapAgg>,
+    mw_calls: u64,
+    mw_scenarios: u64,
+    route_hits: [u64; 4],
+    hook_saturation: u64,
+    hook_panic: u64,
+    hook_mismatches: u64,
+    first_hook_mismatch: Option<String>,
+    quiesce_timeouts: u64,
+    gate_timeouts: u64,
+    late_slot_release: u64,
+    serve_notes: u64,
+    first_serve_note: Option<String>,
+    bad_scenarios: u64,
+}
+
+#[derive(Default)]
+struct CapAgg {
+    scenarios: u64,
+    reached_saturation: u64,
+    sat_requests: u64,
+    sat_notifies: u64,
+    with_panic: u64,
+    panics: u64,
+    notify_panics: u64,
+    errors: u64,
+    returns: u64,
+    inline_while_parked: u64,
+    inline_at_cap: u64,
+    accepted_after_release: u64,
+    non_fifo_release: u64,
+    release_orders: BTreeSet<Vec<usize>>,
+    max_gauge: usize,
+    refill_started: u64,
+}
+
+impl Agg {
+    fn add(&mut self, cfg: &Cfg, st: &ScenStats, bad: bool) {
+        self.scenarios += 1;
+        self.transitions += st.transitions;
+        self.frames += st.frames;
+        for s in &st.states {
+            if !self.states.contains(s) {
+                self.states.insert(s.clone());
+            }
+        }
+        let c = self.per_cap.entry(cfg.cap).or_default();
+        c.scenarios += 1;
+        if st.sat_requests + st.sat_notifies > 0 {
+            c.reached_saturation += 1;
+        }
+        c.sat_requests += st.sat_requests;
+        c.sat_notifies += st.sat_notifies;
+        if st.panics + st.notify_panics > 0 {
+            c.with_panic += 1;
+        }
+        c.panics += st.panics;
+        c.notify_panics += st.notify_panics;
+        c.errors += st.errors;
+        c.returns += st.returns;
+        c.inline_while_parked += st.inline_while_parked;
+        c.inline_at_cap += st.inline_at_cap;
+        c.accepted_after_release += st.accepted_after_release;
+        c.non_fifo_release += st.non_fifo_release;
+        if !st.release_order.is_empty() && !c.release_orders.contains(&st.release_order) {
+            c.release_orders.insert(st.release_order.clone());
+        }
+        c.max_gauge = c.max_gauge.max(st.max_gauge);
+        c.refill_started += st.refill_started;
+        self.mw_calls += st.mw_calls;
+        if cfg.mw {
+            self.mw_scenarios += 1;
+        }
+        for i in 0..4 {
+            self.route_hits[i] += st.route_hits[i];
+        }
+        self.hook_saturation += st.hook_saturation;
+        self.hook_panic += st.hook_panic;
+        if let Some(m) = &st.hook_mismatch {
+            self.hook_mismatches += 1;
+            self.first_hook_mismatch.get_or_insert_with(|| m.clone());
+        }
+        self.quiesce_timeouts += st.quiesce_timeouts;
+        self.gate_timeouts += st.gate_timeouts;
+        self.late_slot_release += st.late_slot_release;
+        if let Some(m) = &st.serve_result_note {
+            self.serve_notes += 1;
+            self.first_serve_note.get_or_insert_with(|| m.clone());
+        }
+        if bad {
+            self.bad_scenarios += 1;
+        }
+    }
+    fn merge(&mut self, o: Agg) {
+        self.scenarios += o.scenarios;
+        self.transitions += o.transitions;
+        self.frames += o.frames;
+        self.states.extend(o.states);
+        for (cap, c) in o.per_cap {
+            let d = self.per_cap.entry(cap).or_default();
+            d.scenarios += c.scenarios;
+            d.reached_saturation += c.reached_saturation;
+            d.sat_requests += c.sat_requests;
+            d.sat_notifies += c.sat_notifies;
+            d.with_panic += c.with_panic;
+            d.panics += c.panics;
+            d.notify_panics += c.notify_panics;
+            d.errors += c.errors;
+            d.returns += c.returns;
+            d.inline_while_parked += c.inline_while_parked;
+            d.inline_at_cap += c.inline_at_cap;
+            d.accepted_after_release += c.accepted_after_release;
+            d.non_fifo_release += c.non_fifo_release;
+            d.release_orders.extend(c.release_orders);
+            d.max_gauge = d.max_gauge.max(c.max_gauge);
+            d.refill_started += c.refill_started;
+        }
+        self.mw_calls += o.mw_calls;
+        self.mw_scenarios += o.mw_scenarios;
+        for i in 0..4 {
+            self.route_hits[i] += o.route_hits[i];
+        }
+        self.hook_saturation += o.hook_saturation;
+        self.hook_panic += o.hook_panic;
+        self.hook_mismatches += o.hook_mismatches;
+        if self.first_hook_mismatch.is_none() {
+            self.first_hook_mismatch = o.first_hook_mismatch;
+        }
+        self.quiesce_timeouts += o.quiesce_timeouts;
+        self.gate_timeouts += o.gate_timeouts;
+        self.late_slot_release += o.late_slot_release;
+        self.serve_notes += o.serve_notes;
+        if self.first_serve_note.is_none() {
+            self.first_serve_note = o.first_serve_note;
+        }
+        self.bad_scenarios += o.bad_scenarios;
+    }
+}
+
+struct Worker {
+    rt: tokio::runtime::Runtime,
+    agg: Agg,
+}
+
+pub fn run(tier: Tier) -> ! {
+    let ctx = Ctx::new("C16", tier);
+    install_panic_hook();
+    let plans = plans(tier);
+    // index space: plan-major
+    let mut offsets = Vec::with_capacity(plans.len());
+    let mut total: u64 = 0;
+    for p in &plans {
+        offsets.push(total);
+        total += p.seqs.len() as u64;
+    }
+    // fixed sample positions (deterministic evidence): three sequences of the first
+    // configuration, one of the last
+    let sample_idx: BTreeSet<u64> = {
+        let n0 = plans[0].seqs.len() as u64;
+        let last = plans.len() - 1;
+        let nl = plans[last].seqs.len() as u64;
+        [n0 / 3, n0 / 2, n0 - 1, offsets[last] + nl / 2].into_iter().collect()
+    };
+    let samples: Mutex<BTreeMap<u64, Value>> = Mutex::new(BTreeMap::new());
+    let confirmed: Mutex<BTreeSet<String>> = Mutex::new(BTreeSet::new());
+    let nondeterminism: Mutex<Option<String>> = Mutex::new(None);
+    let hangs = AtomicUsize::new(0);
+    let slows = AtomicUsize::new(0);
+    let skipped = AtomicU64::new(0);
+    let deadline = Instant::now() + Duration::from_secs(tier.pick(150, 3000));
+
+    let workers = par::for_each_index(
+        total,
+        4,
+        |_| Worker { rt: runtime(), agg: Agg::default() },
+        |w, idx| {
+            if hangs.load(SeqCst) >= 2 || slows.load(SeqCst) >= 24 || Instant::now() > deadline {
+                skipped.fetch_add(1, SeqCst);
+                return;
+            }
+            let pi = match offsets.binary_search(&idx) {
+                Ok(i) => i,
+                Err(i) => i - 1,
+            };
+            let plan = &plans[pi];
+            let events = &plan.seqs[(idx - offsets[pi]) as usize];
+            let out = w.rt.block_on(exec(plan.cfg, events));
+            w.agg.add(&plan.cfg, &out.st, out.bad.is_some());
+            if out.bad.is_none() && sample_idx.contains(&idx) {
+                let predicted: Vec<String> = out.st.predicted.iter().map(|f| f.show()).collect();
+                samples.lock().unwrap().insert(
+                    idx,
+                    json!({"case": case_json(&plan.cfg, events), "predicted_frames_incl_epilogue": predicted, "max_gauge": out.st.max_gauge}),
+                );
+            }
+            if let Some(b) = out.bad {
+                // re-execute a representative of every new key: a verdict must reproduce
+                let fresh = confirmed.lock().unwrap().insert(b.key.clone());
+                if fresh {
+                    let again = w.rt.block_on(exec(plan.cfg, events));
+                    let same = again.bad.as_ref().map(|x| (&x.key, x.step)) == Some((&b.key, b.step));
+                    if !same {
+                        *nondeterminism.lock().unwrap() = Some(format!(
+                            "case {} gave {} at step {} on the first execution and {:?} on the second",
+                            case_json(&plan.cfg, events),
+                            b.key,
+                            b.step,
+                            again.bad.map(|x| (x.key, x.step))
+                        ));
+                        return;
+                    }
+                }
+                if b.hang {
+                    hangs.fetch_add(1, SeqCst);
+                }
+                if b.slow {
+                    slows.fetch_add(1, SeqCst);
+                }
+                let mut case = case_json(&plan.cfg, events);
+                case["failed_at_step"] = json!(b.step);
+                ctx.violation(b.key.clone(), format!("{} [events {:?}, step {}]", b.what, events.iter().map(|e| e.name()).collect::<Vec<_>>(), b.step), case);
+            }
+        },
+    );
+    let mut agg = Agg::default();
+    for w in workers {
+        agg.merge(w.agg);
+    }
+    if let Some(m) = nondeterminism.lock().unwrap().take() {
+        ctx.machinery(format!("harness nondeterminism: {m}"));
+    }
+    let skipped = skipped.load(SeqCst);
+    let clean = !ctx.has_violation();
+    if clean {
+        if skipped > 0 {
+            ctx.machinery(format!("{skipped} of {total} scenarios not executed (wall cap hit)"));
+        }
+        if agg.quiesce_timeouts > 0 || agg.gate_timeouts > 0 {
+            ctx.machinery(format!("synchronisation watchdogs expired ({} quiesce, {} gate) without a violation", agg.quiesce_timeouts, agg.gate_timeouts));
+        }
+        for (cap, c) in &agg.per_cap {
+            let fail = |what: &str| ctx.machinery(format!("vacuous exploration for cap {cap}: {what}"));
+            if *cap > 0 {
+                if c.max_gauge != *cap {
+                    fail(&format!("max gauge {} never reached the cap", c.max_gauge));
+                }
+                if c.reached_saturation == 0 || c.sat_requests == 0 || c.sat_notifies == 0 {
+                    fail("saturation (request and notify) never reached");
+                }
+                if c.inline_at_cap == 0 {
+                    fail("no inline request answered at the cap");
+                }
+            }
+            if c.with_panic == 0 || c.errors == 0 || c.returns == 0 {
+                fail("not all of return / error / panic exits were taken");
+            }
+            if *cap != 1 && (c.release_orders.len() < 2 || c.non_fifo_release == 0) {
+                fail("only one release order explored");
+            }
+            if c.accepted_after_release == 0 || c.refill_started == 0 {
+                fail("no slot re-use observed");
+            }
+        }
+        if agg.mw_calls == 0 || agg.route_hits.iter().any(|h| *h == 0) {
+            ctx.machinery("vacuous exploration: middleware or one of the four blocking routes never ran");
+        }
+    }
+    if agg.hook_mismatches > 0 {
+        ctx.note(format!(
+            "on_error hook events differ from the model in {} scenarios (informational, the property does not state them); first: {}",
+            agg.hook_mismatches,
+            agg.first_hook_mismatch.clone().unwrap_or_default()
+        ));
+    }
+    if agg.late_slot_release > 0 {
+        ctx.note(format!(
+            "{} off-reader messages were rejected right after a release and accepted on a retry (slot freed after the response became visible; allowed, resource-exhausted is retryable)",
+            agg.late_slot_release
+        ));
+    }
+    if agg.serve_notes > 0 {
+        ctx.note(format!("serve_connection result after a clean close, {} scenarios; first: {}", agg.serve_notes, agg.first_serve_note.clone().unwrap_or_default()));
+    }
+    let mut sm: Vec<Value> = samples.into_inner().unwrap().into_values().collect();
+    if sm.is_empty() {
+        sm.push(json!({"case": case_json(&plans[0].cfg, &plans[0].seqs[plans[0].seqs.len() / 2])}));
+    }
+    let per_cap: BTreeMap<String, Value> = agg
+        .per_cap
+        .iter()
+        .map(|(cap, c)| {
+            (
+                if *cap == 0 { "unlimited".to_string() } else { cap.to_string() },
+                json!({
+                    "scenarios": c.scenarios,
+                    "scenarios_reaching_saturation": c.reached_saturation,
+                    "requests_rejected_at_cap": c.sat_requests,
+                    "notifies_dropped_at_cap": c.sat_notifies,
+                    "scenarios_with_panic": c.with_panic,
+                    "panicking_requests_released": c.panics,
+                    "panicking_notifies_released": c.notify_panics,
+                    "erroring_handlers_released": c.errors,
+                    "returning_handlers_released": c.returns,
+                    "inline_requests_answered_while_handlers_parked": c.inline_while_parked,
+                    "inline_requests_answered_at_cap": c.inline_at_cap,
+                    "offreader_accepted_after_a_release": c.accepted_after_release,
+                    "releases_overtaking_an_older_parked_handler": c.non_fifo_release,
+                    "distinct_release_orders": c.release_orders.len(),
+                    "max_gauge": c.max_gauge,
+                    "epilogue_refill_handlers_started": c.refill_started,
+                }),
+            )
+        })
+        .collect();
+    let bounds: Vec<Value> = {
+        let mut m: BTreeMap<usize, (usize, usize, u64, u64, usize, usize)> = BTreeMap::new();
+        for p in &plans {
+            let e = m.entry(p.cfg.cap).or_insert((0, 0, 0, 0, 0, 0));
+            e.0 = e.0.max(p.depth);
+            e.1 = e.1.max(p.deep);
+            if p.deep > p.depth {
+                e.3 += p.seqs.len() as u64;
+                e.5 += 1;
+            } else {
+                e.2 += p.seqs.len() as u64;
+                e.4 = p.bursts;
+            }
+        }
+        m.iter()
+            .map(|(cap, e)| {
+                json!({
+                    "cap": if *cap == 0 { json!("unlimited") } else { json!(cap) },
+                    "depth_all_8_configurations": e.0,
+                    "depth_2_deep_configurations": e.1,
+                    "scenarios_up_to_depth": e.2,
+                    "scenarios_beyond_depth_in_deep_configurations": e.3,
+                    "deep_configurations": e.5,
+                    "burst_scenarios_per_configuration": e.4,
+                })
+            })
+            .collect()
+    };
+    let coverage = json!({
+        "states": agg.states.len(),
+        "transitions": agg.transitions,
+        "traces_validated_against_impl": agg.scenarios,
+        "frames_checked": agg.frames,
+        "samples": sm,
+        "exhaustive": skipped == 0,
+        "scenarios_skipped": skipped,
+        "rule": "for every cap x {plain, middleware-wrapped} x route rotation 0..3 (k-th off-reader message goes to blocking route (k+rot)%4 of json/json_ctx/typed/typed_ctx): every event sequence of length <= depth the model allows, plus 4 x cap burst scenarios; each executed on a fresh in-memory connection to a real SharedWebSocketServer; after every event an inline fence request delimits the frames compared (as a multiset) with the counter-automaton model; an epilogue releases everything, refills all `cap` slots, checks one more rejection and a dropped notify, releases in reverse, closes and compares the whole frame multiset and the set of handlers that ran",
+        "bound": bounds,
+        "alphabet": {
+            "events": ["req:ret", "req:err", "req:panic", tier.pick("notify:ret", "notify:ret, notify:panic"), "inline", "release:j for every parked j", "burst:n / release-all (burst scenarios only)"],
+            "configurations": "cap x {plain, middleware} x rotation 0..3",
+        },
+        "nonvacuity": {
+            "per_cap": per_cap,
+            "middleware_invocations": agg.mw_calls,
+            "scenarios_with_middleware": agg.mw_scenarios,
+            "handler_runs_per_blocking_route": {"json": agg.route_hits[0], "json_ctx": agg.route_hits[1], "typed": agg.route_hits[2], "typed_ctx": agg.route_hits[3]},
+            "on_error_saturation_events": agg.hook_saturation,
+            "on_error_panic_events": agg.hook_panic,
+            "on_error_mismatch_scenarios": agg.hook_mismatches,
+            "scenarios_with_violation": agg.bad_scenarios,
+            "below_cap_rejections_that_vanished_on_retry": agg.late_slot_release,
+        },
+    });
+    ctx.finish(
+        "model_checking",
+        coverage,
+        &[
+            "handlers park on harness gates, so 'running' means 'entered and not yet released'; CPU-bound handler timing is not explored",
+            "a freed slot is required to be available once the blocking task has ended (observed through the handler Arc's strong count), not at the instant the response frame is visible; a below-cap rejection after a release is retried for 250 ms before it counts as a leaked slot",
+            "a *_blocking handler observed on the runtime's only thread is reported as blocking the reader (it cannot be parked there without freezing the harness)",
+            "one connection per scenario; the cap is per connection, cross-connection interaction is not explored",
+            "tokio's blocking pool is assumed to have a free thread for every permitted handler (max 64 + refill in one scenario)",
+        ],
+    )
+}
+
+pub fn replay(case: &Value) -> Result<(), String> {
+    install_panic_hook();
+    let c = &case["cfg"];
+    let cfg = Cfg {
+        cap: c["cap"].as_u64().ok_or("cfg.cap")? as usize,
+        mw: c["mw"].as_bool().ok_or("cfg.mw")?,
+        rot: c["rot"].as_u64().ok_or("cfg.rot")? as u8,
+    };
+    let mut events = Vec::new();
+    for e in case["events"].as_array().ok_or("events")? {
+        let s = e.as_str().ok_or("event")?;
+        events.push(Ev::parse(s).ok_or_else(|| format!("unknown event {s}"))?);
+    }
+    let rt = runtime();
+    let out = rt.block_on(exec(cfg, &events));
+    match out.bad {
+        None => Ok(()),
+        Some(b) => Err(format!("{} (step {}): {}", b.key, b.step, b.what)),
+    }
 }
